@@ -166,6 +166,11 @@ SigLayout(n, params) ==
     <<[name |-> "nspk", level |-> 0, off |-> 0, len |-> 4]>> \o SigLayoutR(n, params, 1, 4)
 HssSigLen(n, params) ==
     LET last == SigLayout(n, params)[Len(SigLayout(n, params))] IN last.off + last.len
+(* Named deviation SignaturesLongerThan65535Refused (KNOWN_FINDINGS.json, property C01): the      *)
+(* library keeps signatures in containers whose length is a 16-bit number; parameter lists whose  *)
+(* signatures are longer (seven or eight levels of W1) are refused by keygen and signing.         *)
+Representable(n, params) == HssSigLen(n, params) <= 65535
+
 PubLayout(n) ==
     <<[name |-> "L", level |-> 0, off |-> 0, len |-> 4]>> \o LmsPubFields(n, 1, 4)
 =============================================================================
